@@ -8,15 +8,16 @@ TB = ("TLC/SANY/CommunityModules; Go toolchain; the recorder's projection of the
 
 CHECKS = {
     "C20": dict(
-        technique="TLA+ spec Lease.tla: TLC exhaustive + TLC-generated interleavings replayed exactly on the real s3.Leaser (gated in-memory S3) + TLC judge (LeaseObs) and trace validation (Trace_Lease)",
+        technique="TLA+ spec Lease.tla: TLC exhaustive + TLC-generated interleavings replayed exactly on the real s3.Leaser (gated in-memory S3) + TLC judge (LeaseObs) and trace validation (Trace_Lease); thorough: inductive invariant discharged by Apalache (LeaseInd.tla)",
         text="Lease.tla models s3/leaser.go at the granularity of single conditional requests and clock reads; TLC checks Mutex/StaleCannot/GenIncreases/AcquireOnlyAfterExpiry for 2 (quick) and 3 (thorough) clients exhaustively; TLC behaviours (simulate + every edge of a dumped state graph) are replayed request-by-request on the real leaser and the observed states are judged by TLC (verdict) and validated against the spec (binding).",
         design="7/C20",
         note="In-memory S3 with atomic If-Match/If-None-Match and fresh ETag per write stands for S3; model time maps 1 tick = 1 h of TTL. " + TB),
 }
 
 CORE_TECH = ("TLA+ spec Core.tla (SQLite WAL environment + litestream verify/sync/checkpoint/lifecycle): TLC exhaustive; TLC behaviours "
-             "(simulate / dumped graph) + seeded schedules replayed on the real SQLite + litestream; TLC judge CoreObs.tla over the recorded states")
-CORE_NOTE = ("Synchronous litestream (no monitor goroutines), file replica, modernc SQLite; source state derived by SQLite's own recovery of a copy of (db,-wal); "
+             "(simulate / dumped graph) + seeded schedules replayed on the real SQLite + litestream; TLC judge CoreObs.tla over the recorded states; "
+             "bindings Trace_CoreSync.tla / SqliteWal.tla; daemon-mode family (real Store with all monitors, judge DaemonObs.tla); LocalChain.tla for C04")
+CORE_NOTE = ("Synchronous litestream (no monitor goroutines) except in the daemon-mode family, file replica, modernc SQLite; source state derived by SQLite's own recovery of a copy of (db,-wal); "
              "known findings identified by history signatures computed in TLA+ (known_findings.json). " + TB)
 CHECKS.update({
     "C01": dict(technique=CORE_TECH, design="7/C01", note=CORE_NOTE,
@@ -25,7 +26,7 @@ CHECKS.update({
         text="NoUncommitted is model-checked in Core.tla (spilled / rolled-back frames physically in the WAL); on the real code every TXID listed at any level is restored and the TLA+ judge requires each to equal one recorded committed state, in order, with level 0 gapless from 1; chunked syncs and open transactions across litestream steps included."),
     "C04": dict(technique=CORE_TECH, design="7/C04", note=CORE_NOTE,
         text="Core.tla explores stop/start of the same object, new process, crash and arbitrary application activity while litestream is down; replays add lost/reset state directories and replaced database files; the TLA+ judge tracks from observed WAL states whether uncopied committed frames were destroyed and demands a full snapshot above the replica's TXIDs, position agreement at every acknowledgement, and C01."),
-    "C13": dict(technique="TLA+ spec Policy.tla (checkpointIfNeeded over frame counts): TLC exhaustive over all small configurations; its behaviours replayed on the real litestream for every configuration; TLC judge CoreObs.tla (C13_*) on the observed WAL and level-0 files",
+    "C13": dict(technique="TLA+ spec Policy.tla (checkpointIfNeeded over frame counts): TLC exhaustive over all small configurations; its behaviours replayed on the real litestream for every configuration; TLC judge CoreObs.tla (C13_*) on the observed WAL and level-0 files; binding Trace_Policy.tla (SyncOutcome instantiated on the state observed before each real DB.Sync)",
         design="7/C13", note=CORE_NOTE,
         text="Policy.tla checks AfterSyncBound and IdleSilence for every (MinCheckpointPageN, TruncatePageN, interval) in 1..9 pages x {off, elapsed, not yet}; every configuration is then run on the real code with model-generated write/sync histories followed by idle syncs, and the TLA+ judge evaluates the WAL bound after every successful sync and the number of files created by idle syncs."),
     "C14": dict(technique=CORE_TECH, design="7/C14", note=CORE_NOTE,
@@ -33,7 +34,8 @@ CHECKS.update({
 })
 
 REPL_TECH = ("TLA+ specs Replica.tla / Faults.tla (replica file sets under upload, compaction with cache, snapshot, retention passes, storage faults; planner = RestorePlan.tla): "
-             "TLC exhaustive; TLC behaviours + seeded schedules replayed on the real litestream + file replica; every replica file decoded; TLC judge CoreObs.tla")
+             "TLC exhaustive; TLC behaviours + seeded schedules replayed on the real litestream + file replica; every replica file decoded; TLC judge CoreObs.tla; "
+             "binding Trace_Replica.tla; daemon-mode family (real Store with all monitors, storage faults for C05; judge DaemonObs.tla)")
 CHECKS.update({
     "C05": dict(technique=REPL_TECH, design="7/C05", note=CORE_NOTE + " Faults are injected by a wrapper around the DB's replica client (ok / fail-before / partial / fail-after / listing and read errors); the restore oracle uses an un-faulted client.",
         text="Faults.tla checks L0Gapless, AckStored, Restorable for every placement of up to 3 faults; its behaviours and seeded fault schedules run on the real code; after every step the TLA+ judge requires the level-0 names gapless, every acknowledgement stored and restoring to the source, the replica restorable to a committed state, and catch-up once faults stop."),
@@ -41,7 +43,7 @@ CHECKS.update({
         text="Replica.tla checks level contiguity on retention-free histories; on the real code every compaction/snapshot output is decoded and the TLA+ judge recomposes its level-0 inputs (latest page wins, trimmed to the final size, newest input's timestamp) and requires equality, contiguity per level, and that every listed TXID restores to the recorded committed state (plan independence)."),
     "C07": dict(technique=REPL_TECH, design="7/C07", note=CORE_NOTE + " EnforceRetentionByTXID is exercised with floors covered by a snapshot (the only floors the daemon passes).",
         text="Replica.tla checks Restorable, SnapshotKept, L0Run for every retention threshold (RetentionEnabled true/false); on the real code cut-offs are placed around the observed file times and after every pass the TLA+ judge requires the latest state restorable to a committed state not older than the last acknowledgement, a snapshot kept, level 0 one contiguous run."),
-    "C12": dict(technique="TLA+ spec Concurrency.tla (executor semaphore, checkpoint RW-lock, read transaction, lifecycle): TLC exhaustive; TLC interleavings + seeded orders executed by real goroutines parked at verif hooks (exact replay) on one Store; TLC judge CoreObs.tla (C12_* + C01/C02/C06); Go race detector for the data-race clause",
+    "C12": dict(technique="TLA+ spec Concurrency.tla (executor semaphore, checkpoint RW-lock, read transaction, lifecycle): TLC exhaustive; TLC interleavings + seeded orders executed by real goroutines parked at verif hooks (exact replay) on one Store; TLC judge CoreObs.tla (C12_* + C01/C02/C06); trace validation of the recorded hook events (Trace_Concurrency.tla); daemon mode (the real Store with all monitors running, judge DaemonObs.tla); Go race detector for the data-race clause",
         design="7/C12", note=CORE_NOTE + " Interleaving granularity = verif hooks; blocked goroutines stay blocked (nothing simulated). The data-race clause is decided by the race detector, not TLA+ (DESIGN 10).",
         text="Concurrency.tla checks LocksFree, NoDeadlock and NoLeakAfterClose over all interleavings of the daemon operations at hook granularity; those interleavings and seeded ones over the full operation set (sync, upload, checkpoint, snapshot, compaction, retention, status, register/unregister, enable/disable, close, live writers) are replayed exactly with real goroutines; a watchdog decides 'every call returns'; the judge requires no read lock / handle after close, one instance per path, and C01/C02/snapshot=position afterwards; the same replays run under -race."),
     "C17": dict(technique="TLA+ spec LockPage.tla (litestream's page loops with the lock page as a constant, all small inputs) + REAL > 1 GiB databases replicated, compacted, snapshotted and restored (cmd/bigdb); TLC judge LockObs.tla on the decoded files and page-by-page restore comparison",
@@ -65,7 +67,7 @@ CHECKS.update({
     "C11": dict(technique="TLA+ spec FsProtocol.tla (PowerFail reverts to the durable view): TLC exhaustive; real strace -f -y syscall traces of the litestream process for each scenario parsed to events; TLC judge FsTraceObs.tla evaluates the flush-order rules at every rename / success mark / unlink",
         design="7/C11", note="The property states ordering rules over syscalls; real power loss is not simulated on real disks. " + TB,
         text="R1: content fsynced after the last write and before every rename to a final name; R2: every directory an operation renamed in is fsynced before the operation reports success; R3: a published LTX file is unlinked only after a superseding file is durable - evaluated in TLA+ on the syscall trace of the real process for every scenario."),
-    "C18": dict(technique="TLA+ spec Vfs.tla (page index / pending index / poll of level 0 and 1 / open from a plan; as-is and with candidate repairs): TLC exhaustive; its behaviours + directed schedules driven on the REAL VFSFile (cgo, tags vfs verif) with a 1-page cache and a gated replica client granting one poll round at a time; TLC judges VfsObs.tla (verdict) and Trace_Vfs.tla (conformance)",
+    "C18": dict(technique="TLA+ spec Vfs.tla (page index / pending index / poll of level 0 and 1 / open from a plan; as-is and with candidate repairs): TLC exhaustive; its behaviours + directed schedules driven on the REAL VFSFile (cgo, tags vfs verif) with a 1-page cache and a gated replica client granting one poll round at a time; TLC judges VfsObs.tla (verdict) and Trace_Vfs.tla (conformance); VfsCache.tla (page cache protocol, negative controls) with default-cache cases and gated page fetches on the real VFSFile",
         design="7/C18", note="Reference = the real Replica.Restore at the VFS's reported TXID with the header bytes the VFS rewrites masked. " + TB,
         text="Served (every page <= commit is the restore's page at the reported position) and FileSizeOK at open and after every poll, across growth, partial shrink, VACUUM, compaction and retention of the files being read; every observation of the real VFSFile is judged in TLA+ and replayed through the as-is model (0 divergences)."),
     "C16": dict(technique="TLA+ specs Follow.tla / FollowAlg.tla (Replica.tla + follower: transcription of applyNewLTXFiles / fillFollowGap / resume validation, step-wise apply, sidecar publish, Kill): TLC exhaustive; its behaviours on a real primary + the real Restore(Follow) as a child process fed published replica views, killed before FS-mutating syscalls (ptrace supervisor) and restarted; TLC judges FollowObs.tla (verdict) and Trace_Follow.tla (binding)",
